@@ -124,10 +124,11 @@ Proof.
 Qed.
 
 Lemma fdevice_nf cfg s auth dev :
+  cf_dev_contract cfg = false ->
   let r := fdevice e cfg (finit s) auth dev in
   (f_s (fst r), snd r) = device_poll cfg s auth dev.
 Proof.
-  unfold fdevice, device_poll, ffail, fail, rd, wr, planned. cbv zeta. nf_simpl.
+  intros Hrc. unfold fdevice, device_poll, used_device, ffail, fail, rd, wr, planned. rewrite Hrc. cbv zeta. nf_simpl.
   destruct auth as [c|]; [|reflexivity].
   destruct (clients s c) as [cl|]; [|reflexivity].
   destruct (negb (args_has (cl_grants cl) _)); [reflexivity|].
@@ -184,13 +185,14 @@ Proof.
 Qed.
 
 Theorem fstep_nf cfg s o :
+  cf_dev_contract cfg = false ->
   let '(s', ob, _) := fstep e cfg s o in (s', ob) = step cfg s o.
 Proof.
-  destruct o; cbn [fstep step];
+  intros Hrc. destruct o; cbn [fstep step];
     try (match goal with |- context [let (s', ob) := ?t in (s', ob, [])] => destruct t; reflexivity end);
     try reflexivity.
   - apply fredeem_nf. - apply frefresh_nf. - apply frevoke_nf. - apply fpassword_nf.
-  - apply fclient_credentials_nf. - apply fdevice_nf.
+  - apply fclient_credentials_nf. - apply fdevice_nf; exact Hrc.
 Qed.
 End NoFaults.
 
@@ -244,9 +246,9 @@ Proof.
   - intros [r' H]. destruct (upd_cases (access b) k k' None) as [[-> Eu]|[Hne Eu]]; rewrite Eu in H; [discriminate|eauto].
   - intros [r' H]. destruct (upd_cases (implicit b) k k' None) as [[-> Eu]|[Hne Eu]]; rewrite Eu in H; [discriminate|eauto].
 Qed.
-Lemma sle_delete_device n b k : store_le n b (delete_device b k).
+Lemma sle_delete_device n b k rid : store_le n b (invalidate_device b k rid).
 Proof.
-  intros k' Hk. unfold live_code, live_access, live_refresh, live_device, live_implicit, delete_device. cbn. repeat split; auto.
+  intros k' Hk. unfold live_code, live_access, live_refresh, live_device, live_implicit, invalidate_device, delete_device. cbn. repeat split; auto.
   intros [r' H]. destruct (upd_cases (device b) k k' None) as [[-> Eu]|[Hne Eu]]; rewrite Eu in H; [discriminate|eauto].
 Qed.
 Lemma sle_revoke_access n b rid : store_le n b (revoke_access b rid).
@@ -554,6 +556,7 @@ Proof.
   destruct (clients s2 c) as [cl|]; [|reflexivity].
   destruct (negb _); [reflexivity|].
   destruct (match p_ref dev with CRef i => option_map i_key (nth_error (log s2) i) | CUnknown => None end) as [k|]; [|reflexivity].
+  destruct (used_device cfg (st s2) k); [reflexivity|].
   destruct (device (st s2) k) as [[stt r]|]; try reflexivity.
   repeat match goal with |- context [if ?b then _ else _] => destruct b; [reflexivity|] end.
   match goal with |- snd (let (s3, minted) := grant_tokens ?A ?r ?w in _) = snd (let (s3', minted') := grant_tokens ?B ?r ?w in _) =>
